@@ -214,6 +214,7 @@ def contents():
 
 def dispatcher_level(ctx, w):
     from hpotk.util import open_text_io_handle_for_reading, open_text_io_handle_for_writing
+    import hpotk.util as hu
     w.put('héllo wörld\nline 2 😀\n', '.txt')
     objs = [(k, k, w.source(k)) for k in KINDS] + [('other', name, o) for name, o in w.junk()]
     reps = run_driver([{'op': 'io.dispatch', 'kind': k, 'facts': facts_of(o)} for k, _, o in objs])
@@ -232,6 +233,24 @@ def dispatcher_level(ctx, w):
         if not rep['fits'] or impl != model or impl != want:
             ctx.violation(f'dispatch-read:{name}', {'case': {'kind': 'dispatch', 'source': name, 'facts': facts_of(o)}, 'impl': impl, 'model': rep,
                                                     'required_by_property': want, 'theorem': 'Hpv.Props.C16.dispatch_table (hypothesis FactsFit)'})
+    w.close()
+    # the deprecated alias that is still shipped must dispatch like the function it forwards to
+    objs = [(k, k, w.source(k)) for k in KINDS] + [('other', name, o) for name, o in w.junk()]
+    for k, name, o in objs:
+        ctx.case(['dispatch-alias', name], True, 'dispatcher(deprecated alias open_text_io_handle)')
+        try:
+            with warnings.catch_warnings():
+                warnings.simplefilter('ignore')
+                got = hu.open_text_io_handle(o).read()
+            impl = 'accept' if got == w.text else f'accepts-but-reads {got[:40]!r}'
+        except ValueError:
+            impl = 'reject'
+        except Exception as e:  # noqa
+            impl = f'raises {type(e).__name__}'
+        want = 'reject' if k == 'other' else 'accept'
+        if impl != want:
+            ctx.violation(f'dispatch-read-alias:{name}', {'case': {'kind': 'dispatch', 'source': name, 'facts': facts_of(o)}, 'impl': impl,
+                                                          'required_by_property': want, 'theorem': 'Hpv.Props.C16.dispatch_table'})
     w.close()
 
 
@@ -353,9 +372,72 @@ def writer_product(ctx, w):
                                                           'impl': impl, 'required_by_property': 'ValueError', 'theorem': 'Hpv.Props.C16.dispatch_table'})
 
 
+def probe_outcomes():
+    """a digest of what every reader makes of a non-ASCII content through every source kind, and of the bytes every writer produces:
+    computed once here and once in a child interpreter under a hostile environment (ASCII locale, UTF-8 mode off, odd time zone)"""
+    import hashlib
+    out = {}
+    w = World()
+    try:
+        rd = readers()
+        cont = contents()
+        for fname, (fn, ctype) in rd.items():
+            tag, text = cont[ctype][1]            # the non-ASCII content
+            if ctype == 'csv':                    # a literal file (to_csv would stamp it with the clock of the writing process)
+                text = ('#Information content of the most informative common ancestor for term pairs\n'
+                        '#note=second é ß 病 😀;created=2024-01-01-00:00:00\nterm_a,term_b,ic_mica\n'
+                        'HP:0000001,HP:0000002,0.3333333333333333\nHP:0000003,HP:0000003,2.5\n')
+            w.put(text, '.' + ctype)
+            for kind in KINDS:
+                got = outcome_of(fn, w.source(kind))
+                w.close()
+                out[f'read {fname} {kind}'] = got[1] if got[0] == 'raises' else hashlib.sha256(repr(got[1]).encode('utf-8')).hexdigest()[:16]
+        from hpotk.algorithm.similarity import SimilarityContainer
+        for kind in ('path', 'gzPath', 'textFile', 'binaryFile'):
+            c = SimilarityContainer(metadata={'note': 'é ß 病 😀'})
+            c.set_similarity('HP:0000001', 'HP:0000002', 1 / 3)
+            plain, gz = os.path.join(w.sub, 'p.csv'), os.path.join(w.sub, 'p.csv.gz')
+            try:
+                if kind == 'path':
+                    c.to_csv(plain)
+                elif kind == 'gzPath':
+                    c.to_csv(gz)
+                elif kind == 'textFile':
+                    with open(plain, 'w', encoding='utf-8', newline='') as fh:
+                        c.to_csv(fh)
+                else:
+                    with open(plain, 'wb') as fh:
+                        c.to_csv(fh)
+                data = gzip.open(gz, 'rb').read() if kind == 'gzPath' else open(plain, 'rb').read()
+                out[f'write to_csv {kind}'] = hashlib.sha256(mask(data.decode('utf-8').replace('\r\n', '\n')).encode('utf-8')).hexdigest()[:16]
+            except Exception as e:  # noqa
+                out[f'write to_csv {kind}'] = f'raises {type(e).__name__}'
+    finally:
+        w.cleanup()
+    return out
+
+
+def environment_probe(ctx):
+    import common
+    here = probe_outcomes()
+    there = common.run_in_child('c16', 'probe_outcomes', common.HOSTILE_ENV)
+    ctx.case(['environment-probe'], True, 'readers+writers under an ASCII locale / UTF-8 mode off / another time zone (child interpreter)',
+             sample={'cells': len(here)})
+    if 'child_failed' in there:
+        ctx.violation('environment:child-raises', {'case': {'kind': 'environment', 'env': common.HOSTILE_ENV}, 'impl': there['child_failed'][-600:],
+                                                   'theorem': 'Hpv.Props.C16.same_result'})
+        return
+    diff = {k: [here[k], there.get(k)] for k in here if here[k] != there.get(k)}
+    if diff:
+        ctx.violation('environment:' + sorted(diff)[0], {'case': {'kind': 'environment', 'env': common.HOSTILE_ENV},
+                                                         'impl': {'differing cells [this process, hostile environment]': dict(list(diff.items())[:6])},
+                                                         'theorem': 'Hpv.Props.C16.same_result (the result is a function of the content)'})
+
+
 def run(ctx):
     w = World()
     try:
+        environment_probe(ctx)
         dispatcher_level(ctx, w)
         reader_product(ctx, w)
         writer_product(ctx, w)
